@@ -967,8 +967,19 @@ def _m_zip(I, b, a, kw, node):
     raise EngineLimit("zip over symbolic-length sequences")
 
 
+def _quant_over(I, seq, forall):
+    j = I.ctx.fresh("q_all" if forall else "q_any", z3.IntSort())
+    t = I.truth_term(seq.elem(j))
+    if isinstance(t, bool):
+        t = z3.BoolVal(t)
+    rng = z3.And(0 <= j, j < ival(seq.n))
+    return mk(z3.ForAll([j], z3.Implies(rng, t)) if forall else z3.Exists([j], z3.And(rng, t)), "bool")
+
+
 @ext("builtins.all")
 def _m_all(I, b, a, kw, node):
+    if isinstance(a[0], SymSeq) and a[0].concrete_len() is None:
+        return _quant_over(I, a[0], True)
     ts = []
     for x in I.iter_concrete(a[0]):
         t = I.truth_term(x)
@@ -981,6 +992,8 @@ def _m_all(I, b, a, kw, node):
 
 @ext("builtins.any")
 def _m_any(I, b, a, kw, node):
+    if isinstance(a[0], SymSeq) and a[0].concrete_len() is None:
+        return _quant_over(I, a[0], False)
     ts = []
     for x in I.iter_concrete(a[0]):
         t = I.truth_term(x)
